@@ -103,7 +103,8 @@ class LoGPicker(BasePickerModel):
 
     def get_params_and_depth(self, scale: nm):
         sigma_px = self._sigma / scale
-        depth = int(np.ceil(sigma_px * 2))
+        # kernel is truncated at 4 sigma, local maxima are searched within sigma
+        depth = int(np.ceil(sigma_px * 4)) + int(np.ceil(sigma_px)) + 1
         return {"sigma": sigma_px}, depth
 
 
@@ -129,7 +130,8 @@ class DoGPicker(BasePickerModel):
     def get_params_and_depth(self, scale: nm):
         sigma1_px = self._sigma_low / scale
         sigma2_px = self._sigma_high / scale
-        depth = int(np.ceil(sigma1_px * 2))
+        # kernels are truncated at 4 sigma, local maxima are searched within sigma_low
+        depth = int(np.ceil(sigma2_px * 4)) + int(np.ceil(sigma1_px)) + 1
         return {"sigma_low": sigma1_px, "sigma_high": sigma2_px}, depth
 
 
